@@ -328,8 +328,10 @@ class C15(F.Check):
                             % (msg, cfg['p'], cfg['r'], cfg['t'], cfg['c'], model.trace[-10:]), {'cfg': cfg, 'choices': list(ch.taken)})
             if res.executions % 499 == 3 and len(res.samples) < 2:
                 res.samples.append({'params': [cfg['p'], cfg['r'], cfg['t'], cfg['c']], 'trace': model.trace[:16]})
-        ex = explore.Explorer(lambda c, e: self.one_run(cfg, c, e), check, dev_kinds=('app',), max_dev=1, cache=True)
+        ex = explore.Explorer(lambda c, e: self.one_run(cfg, c, e), check, dev_kinds=('app',), max_dev=1, cache=True, max_runs=400000)
         ex.run()
+        if ex.capped:
+            res.caps.append('explorer run cap reached')
         res.states |= ex.states
         res.transitions |= ex.edges
         res.counters['truncated_runs'] += ex.truncated
